@@ -12,11 +12,11 @@ from runner import Case
 
 THEOREMS = [
     "C18.vertical_lines", "C18.vertical_preorder", "C18.vertical_indent",
-    "C18.print_roundtrip", "C18.builtin_styles_ok",
+    "C18.print_roundtrip", "C18.print_roundtrip_text", "C18.builtin_styles_ok",
     "C18.mermaid_ids_injective", "C18.mermaid_ids_nodup", "C18.mermaid_edges_exact", "C18.mermaid_vertices",
     "C18.mermaid_single_no_vertex",
     "C18.dot_vertices_labels", "C18.dot_edges_exact", "C18.dot_ids_injective_partial", "C18.dot_ids_not_injective",
-    "C18.h_bands", "C18.h_leaf_order", "C18.h_rows_in_range", "C18.h_parent_in_span", "C18.h_gap_assert",
+    "C18.h_places_all_nodes", "C18.h_bands", "C18.h_leaf_order", "C18.h_rows_in_range", "C18.h_parent_in_span", "C18.h_gap_assert",
     "C18.builtin_hstyles_ok", "C18.h_ascii_not_injective",
 ]
 PROOF_IMPORTS = ["BigtreeProofs.Properties.C18"]
@@ -41,13 +41,17 @@ ASSUMPTIONS = [
     "sibling names are distinct (Node enforces it)",
     "K2: tree_to_dot ids collide when a name ends in a digit; K3: tree_to_mermaid shows no vertex for a one-node rendering; K4: the built-in horizontal style 'ascii' is ambiguous",
 ]
-LEVEL_TEXT = ("proof (Lean 4) of: vertical layout = structural specification for every style with equal-length glyphs "
-              "(one line per node in pre-order, indentation = depth, branch/final glyph iff a right sibling exists, stem in column j iff the "
-              "ancestor at depth j+1 has a right sibling), str_to_tree(print) = tree for every style meeting decidable side conditions "
-              "(discharged for the generated built-in table), mermaid ids injective / edges exact, dot edges exact and dot ids injective when no "
-              "name ends in a digit (unconditional statement refuted: K2), horizontal column bands and leaf order; "
-              "PARTIAL: horizontal decodability is only tested (Lean decoder run on every generated tree; refuted for the built-in 'ascii' style: K4), "
-              "h_parent_in_span is checked by the oracle only; everything is tied to /repo by the correspondence check")
+LEVEL_TEXT = ("proof (Lean 4) of: vertical layout = structural specification for EVERY style (one line per node in pre-order, "
+              "indentation = depth x glyph length, branch/final glyph iff a right sibling exists, stem in column j iff the ancestor at depth j+1 "
+              "has a right sibling; from the unclosed_depth book-keeping), str_to_tree(print_tree(t)) = t on the line and on the text level for "
+              "every style meeting decidable side conditions (discharged by decide for every entry of the generated PRINT_STYLES table; custom "
+              "styles meeting them are covered), mermaid refs injective / flow lines = links with the right labels / every node a labelled vertex "
+              "when there are >= 2 nodes (one-node case refuted: K3), dot: one labelled vertex per node, edges = links through the ids, ids pairwise "
+              "distinct when no name ends in a digit (unconditional statement refuted: K2), horizontal: hplace lists all nodes, column bands, leaf "
+              "order, parent row inside its children's span, the gap assertion never fires; "
+              "PARTIAL: horizontal decodability is only TESTED (Lean decoder hdecode run by the driver on every generated tree, op=hdec; refuted for "
+              "the pinned built-in 'ascii' style: K4, all other generated HPRINT_STYLES entries meet hstyleOk by decide); "
+              "everything is tied to /repo by the correspondence check (exact text / vertex+edge multisets / flow lines)")
 LEVEL_NOTE = "horizontal decode partial (tested, not proved); dot ids conditional (K2); mermaid single node (K3); ascii hstyle ambiguous (K4)"
 TECHNIQUE = "Lean 4 model of the renderers + kernel-checked theorems; differential test real bigtree vs compiled model; generated style tables discharged by decide"
 
